@@ -418,6 +418,12 @@ class Interp:
                 elif isinstance(n, ast.AugAssign) and isinstance(n.target, ast.Name):
                     if n.target.id not in names:
                         names.append(n.target.id)
+                elif isinstance(n, ast.Call) and isinstance(n.func, ast.Attribute) and isinstance(n.func.value, ast.Name) and \
+                        n.func.attr in ("append", "extend", "insert", "pop", "remove", "clear", "update", "add", "setdefault", "popitem", "discard"):
+                    # a container grown / shrunk in the body is loop-carried too: its content at the top of an iteration is
+                    # not the literal it was initialised with
+                    if n.func.value.id not in names:
+                        names.append(n.func.value.id)
         return names
 
     def _const_iter(self, it: Term) -> Optional[List[Term]]:
